@@ -28,6 +28,12 @@ def parseArg (t : String) : Option Arg :=
   else if t.startsWith "i" && (canonicalNat? rest).isSome then (canonicalNat? rest).map .inp
   else if t.startsWith "o" && (canonicalNat? rest).isSome then (canonicalNat? rest).map .out
   else if !t.isEmpty && t.all Char.isDigit then (canonicalNat? t).map .num
+  else if t.startsWith "rom:[r" && t.endsWith "]" then
+    (canonicalNat? ((t.drop 6).dropEnd 1).toString).map .romReg
+  else if t.startsWith "rom:" then
+    match ((t.drop 4).toString).toList with
+    | c :: cs => if isIdentStart c && cs.all isIdentChar then some (.romSym (t.drop 4).toString) else none
+    | [] => none
   else match t.toList with
     | c :: cs => if isIdentStart c && cs.all isIdentChar then some (.sym t) else none
     | [] => none
@@ -48,6 +54,7 @@ def parsePairs (s : String) : List (String × String) :=
 structure PState where
   src : Source := {}
   cur : Option Section := none
+  curData : Option DataSec := none
   pending : List String := []      -- labels waiting for their line (latest first, like `isSymbolled`)
   bad : Bool := false
 deriving Inhabited
@@ -64,7 +71,13 @@ def pstep (st : PState) (raw : String) : PState :=
     if ps.any (fun p => p.1 ≠ "iomode") then { st with bad := true } else
     let mode := (ps.find? (·.1 == "iomode")).bind fun p => parseMode? p.2
     { st with cur := some { name := name, iomode := mode, lines := [] } }
+  | ["%section", name, ".romdata"] =>
+    if st.cur.isSome || st.curData.isSome then { st with bad := true }
+    else { st with curData := some { name := name, vars := [] } }
   | ["%endsection"] =>
+    match st.curData with
+    | some d => { st with curData := none, src := { st.src with datas := st.src.datas ++ [d] } }
+    | none =>
     match st.cur with
     | some s => if st.pending.isEmpty then { st with cur := none, src := { st.src with sections := st.src.sections ++ [s] } }
                 else { st with bad := true }
@@ -87,6 +100,10 @@ def pstep (st : PState) (raw : String) : PState :=
       | [("romcode", sec)] =>
         if st.src.cps.any (·.name == obj) then { st with bad := true }
         else { st with src := { st.src with cps := st.src.cps ++ [{ name := obj, romcode := sec }] } }
+      | [("romcode", sec), ("romdata", dsec)] =>
+        if st.src.cps.any (·.name == obj) then { st with bad := true }
+        else { st with src := { st.src with cps := st.src.cps ++ [{ name := obj, romcode := sec }],
+                                            cpData := st.src.cpData ++ [(obj, dsec)] } }
       | _ => { st with bad := true }
     else if cmd = "ioatt" then
       match get "cp", get "type", (get "index").bind canonicalNat? with
@@ -96,6 +113,25 @@ def pstep (st : PState) (raw : String) : PState :=
       | _, _, _ => { st with bad := true }
     else { st with bad := true }
   | op :: rest =>
+    match st.curData with
+    | some d =>
+      -- `name db v1, v2` / `name N:db v1, v2` (hexadecimal 0x.. or decimal byte values)
+      match rest with
+      | dop :: vs =>
+        let rep : Option Nat := if dop = "db" then some 1
+          else if dop.endsWith ":db" then canonicalNat? (dop.dropEnd 3).toString else none
+        let vals := ((" ".intercalate vs).splitOn ",").map fun v => v.trimAscii.toString
+        let num (v : String) : Option Nat :=
+          if v.startsWith "0x" then
+            ((v.drop 2).toString.toList.foldl (fun acc ch => acc.bind fun a =>
+              if ch.isDigit then some (a * 16 + (ch.toNat - '0'.toNat))
+              else if 'a' ≤ ch ∧ ch ≤ 'f' then some (a * 16 + 10 + (ch.toNat - 'a'.toNat)) else none) (some 0))
+          else canonicalNat? v
+        match rep, vals.mapM num with
+        | some n, some xs => { st with curData := some { d with vars := d.vars ++ [{ name := op, rep := n, vals := xs }] } }
+        | _, _ => { st with bad := true }
+      | [] => { st with bad := true }
+    | none =>
     match st.cur with
     | none => { st with bad := true }
     | some s =>
@@ -118,7 +154,7 @@ def pstep (st : PState) (raw : String) : PState :=
 
 def parseSource (lines : List String) : Option Source :=
   let st := lines.foldl pstep {}
-  if st.bad || st.cur.isSome then none else some st.src
+  if st.bad || st.cur.isSome || st.curData.isSome then none else some st.src
 
 /-! ### machine text -/
 
